@@ -15,7 +15,8 @@ TIMEOUT = 3000
 
 
 def generate(rng, tier):
-    return kdcases.kd_cases(rng, tier, {"rt", "valid", "consumed", "corr", "skip"})
+    return (kdcases.kd_cases(rng, tier, {"rt", "valid", "consumed", "corr", "skip"})
+            + kdcases.kd_core_cases(rng, tier) + kdcases.kd_corrupt_cases(rng, tier))
 
 
 def replay_cases(lines):
